@@ -286,6 +286,27 @@ def globalstate(prog, an):
                     if isinstance(tg, ast.Attribute) and isinstance(tg.value, ast.Name) and tg.value.id == init.self_name:
                         own.add(tg.attr)
         for m in c.methods.values():
+            # locals that are just another name for a shared class-level container: `risk = self.NO_RISK`
+            alias = {}
+            for n in own_nodes(m.node):
+                if isinstance(n, ast.Assign) and len(n.targets) == 1 and isinstance(n.targets[0], ast.Name) \
+                        and isinstance(n.value, ast.Attribute) and isinstance(n.value.value, ast.Name) \
+                        and n.value.value.id in (m.self_name, 'cls', c.name) and n.value.attr in shared \
+                        and n.value.attr not in own:
+                    alias[n.targets[0].id] = n.value.attr
+            for n in own_nodes(m.node):
+                tgt = None
+                if isinstance(n, ast.Assign) and len(n.targets) == 1 and isinstance(n.targets[0], ast.Subscript) \
+                        and isinstance(n.targets[0].value, ast.Name) and n.targets[0].value.id in alias:
+                    tgt = n.targets[0].value.id
+                elif isinstance(n, ast.Call) and isinstance(n.func, ast.Attribute) and isinstance(n.func.value, ast.Name) \
+                        and n.func.value.id in alias and n.func.attr in (ADDERS | {'update', 'setdefault', 'extend', 'clear', 'pop'}):
+                    tgt = n.func.value.id
+                if tgt is not None:
+                    out.append((m, n, f"'{stmt_text(n, 70)}' changes '{tgt}', which is the container '{alias[tgt]}' declared "
+                                      f"in the body of class {c.name} ('{stmt_text(shared[alias[tgt]], 50)}', no copy is "
+                                      f"taken): one object for all instances and all calls, what one call writes every "
+                                      f"later call reads"))
             for n in own_nodes(m.node):
                 base = None
                 if isinstance(n, ast.Assign) and len(n.targets) == 1 and isinstance(n.targets[0], ast.Subscript):
@@ -312,6 +333,18 @@ def misc_bugclasses(prog, cfg_of_):
                   (full_name embeds the id, which add_node assigns later).
        SELFREF    `x[k] = y` / `x.f = y` where y is (an alias of) x itself: the structure contains itself."""
     out = []
+    # DCEQ: membership tests / de-duplication of the graph dataclasses rely on the generated __eq__ comparing EVERY
+    # field: a field taken out of the comparison makes distinct objects equal
+    for c in prog.classes.values():
+        if c.module.generated or not c.is_dataclass:
+            continue
+        for st in c.node.body:
+            if isinstance(st, ast.AnnAssign) and isinstance(st.value, ast.Call) and 'field' in stmt_text(st.value.func):
+                for k in st.value.keywords:
+                    if k.arg == 'compare' and isinstance(k.value, ast.Constant) and k.value.value is False:
+                        out.append((c, st, 'DCEQ', f"'{stmt_text(st, 70)}' removes {stmt_text(st.target)} from "
+                                    f"{c.name}.__eq__: two {c.name} objects that differ only in it compare equal, so "
+                                    f"`x not in list` de-duplication drops one of them"))
     for f in prog.all_funcs():
         if f.module.generated:
             continue
@@ -410,6 +443,11 @@ def run(ctx) -> list[Inst]:
                           line=getattr(n, 'lineno', 0), props=props))
     for (f, n, kind, msg) in misc_bugclasses(prog, ctx.cfg):
         rel = f.module.relpath
+        if kind == 'DCEQ':
+            from ..props import MODULE_DEFAULT
+            insts.append(Inst(RULE, f.name, f'{kind}: {stmt_text(n, 60)}', 'violation', msg=msg, file=rel,
+                              line=n.lineno, props=tuple(dict.fromkeys(MODULE_DEFAULT.get(rel, ()) + ('C15', 'C09')))))
+            continue
         flagged.add(f.qname)
         insts.append(Inst(RULE, f.short, f'{kind}: {stmt_text(n, 60)}', 'violation', msg=msg, file=rel,
                           line=getattr(n, 'lineno', f.node.lineno),
